@@ -171,21 +171,26 @@ template <typename T, typename WT> static void perType(const Input& in0, size_t 
         emitRead(in, "partFromFile", version, sz, b, e, dumpFG<T>(part, sz, b, e));
       }
     }
-    // ---- OfflineGraph
-    {
-      ctx(in, "OfflineGraph", version, sz);
+    // ---- OfflineGraph: sequential scan, every other edge first (no re-seek between reads two apart), random order
+    for (int order = 0; order < 3; ++order) {
+      static const char* names[] = {"OfflineGraph", "OfflineGraph:stride2", "OfflineGraph:random"};
+      ctx(in, names[order], version, sz);
       OfflineGraph og(path);
+      std::vector<uint64_t> idx(m);
+      for (size_t i = 0; i < m; ++i) idx[i] = i;
+      if (order == 1) { std::vector<uint64_t> t; for (size_t i = 0; i < m; i += 2) t.push_back(i); for (size_t i = 1; i < m; i += 2) t.push_back(i); idx = t; }
+      if (order == 2) for (size_t i = m; i > 1; --i) std::swap(idx[i - 1], idx[rng.below(i)]);
+      std::vector<E> flat(m);
+      // destinations first (in the chosen order), then the data (same order): the two streams are positioned independently
+      for (auto e : idx) flat[e].dst = (uint64_t)og.getEdgeDst(OfflineGraph::edge_iterator(e));
+      for (auto e : idx) { long long d = 0; if constexpr (!std::is_void<WT>::value) d = (long long)og.getEdgeData<WT>(OfflineGraph::edge_iterator(e)); flat[e].data = d; }
       Adj a;
       for (size_t s = 0; s < og.size(); ++s) {
         a.emplace_back();
-        for (auto it = og.edge_begin(s); it != og.edge_end(s); ++it) {
-          long long d = 0;
-          if constexpr (!std::is_void<WT>::value) d = (long long)og.getEdgeData<WT>(it);
-          a.back().push_back({(uint64_t)og.getEdgeDst(it), d});
-        }
+        for (auto it = og.edge_begin(s); it != og.edge_end(s); ++it) a.back().push_back(flat[*it]);
       }
-      emitRead(in, "OfflineGraph", version, sz, 0, n, a);
-      out->line(Rec().str("k", "header").i("g", in.id).str("reader", "OfflineGraph").i("version", version).i("n", og.size()).i("m", og.sizeEdges()).i("sz", og.edgeSize()));
+      emitRead(in, names[order], version, sz, 0, n, a);
+      if (order == 0) out->line(Rec().str("k", "header").i("g", in.id).str("reader", "OfflineGraph").i("version", version).i("n", og.size()).i("m", og.sizeEdges()).i("sz", og.edgeSize()));
     }
     // ---- BufferedGraph: whole and partial
     {
